@@ -6,6 +6,7 @@ timing.  Workers are forked once; nothing is forked per execution.
 """
 import multiprocessing
 import os
+import random
 import sys
 import traceback
 
@@ -30,12 +31,19 @@ def run_shards(fn, shards, workers=None):
         workers = int(os.environ.get('VERIF_WORKERS', '0')) or min(16, os.cpu_count() or 1)
     workers = max(1, min(workers, len(shards)))
     acc = Acc()
+    # VERIF_SEED only permutes the order in which shards are handed to the workers; results are
+    # merged in the original shard order, so the explored set and the verdict cannot depend on it
+    order = list(range(len(shards)))
+    random.Random(int(os.environ.get('VERIF_SEED', '0') or 0)).shuffle(order)
     if workers == 1:
-        results = [_call((fn, s)) for s in shards]
+        res = [_call((fn, shards[i])) for i in order]
     else:
         ctx = multiprocessing.get_context('fork')
         with ctx.Pool(workers) as pool:
-            results = pool.map(_call, [(fn, s) for s in shards], chunksize=1)
+            res = pool.map(_call, [(fn, shards[i]) for i in order], chunksize=1)
+    results = [None] * len(shards)
+    for i, r in zip(order, res):
+        results[i] = r
     for tag, r in results:
         if tag == 'err':
             raise HarnessError(r)
